@@ -363,10 +363,17 @@ func NewFECase(g *Gen, id int) *Case {
 				}
 			}
 		}
-		for k, vs := range vals { // blank entries between the others of a []-named list
-			if strings.HasSuffix(k, "[]") && len(vs) > 0 && len(k)%3 == 0 {
-				i := len(vs) / 2
-				vals[k] = append(append(append([]string{}, vs[:i]...), ""), vs[i:]...)
+		var bks []string
+		for k := range vals {
+			if strings.HasSuffix(k, "[]") {
+				bks = append(bks, k)
+			}
+		}
+		sort.Strings(bks)
+		for _, k := range bks { // blank entries between the others of a []-named list
+			if vs := vals[k]; len(vs) > 0 && g.R.P(65) {
+				i := g.R.Intn(len(vs))
+				vals[k] = append(append(append([]string{}, vs[:i]...), Pick(g.R, []string{"", " "})), vs[i:]...)
 			}
 		}
 		if g.R.P(20) && len(n.Fields) > 0 { // []-suffixed spelling of a list parameter
